@@ -77,6 +77,40 @@ type Summary struct {
 	// Unmodelled external callees with pointer-like operands (fail closed).
 	Unmodelled map[string]*Witness
 	GlobalsRead set
+	// calls through function-typed parameters (resolved at this function's call sites)
+	ParamCalls []ParamCall
+}
+
+// ParamCall: the function calls its parameter Param (free variables follow the parameters) with operands whose
+// regions, in terms of the function's own parameters, are Args.
+type ParamCall struct {
+	Param int
+	Args  []set
+	Pos   token.Pos
+}
+
+func (s *Summary) addParamCall(pc ParamCall, changed *bool) {
+	for i := range s.ParamCalls {
+		q := &s.ParamCalls[i]
+		if q.Param == pc.Param && q.Pos == pc.Pos {
+			for j := range pc.Args {
+				if j < len(q.Args) {
+					if q.Args[j].addAll(pc.Args[j]) {
+						*changed = true
+					}
+				}
+			}
+			return
+		}
+	}
+	cp := ParamCall{Param: pc.Param, Pos: pc.Pos}
+	for _, a := range pc.Args {
+		n := set{}
+		n.addAll(a)
+		cp.Args = append(cp.Args, n)
+	}
+	s.ParamCalls = append(s.ParamCalls, cp)
+	*changed = true
 }
 
 type Analysis struct {
@@ -330,6 +364,7 @@ func (a *Analysis) analyse(f *ssa.Function) bool {
 	for _, e := range sum.Esc {
 		before += len(e)
 	}
+	before += paramCallSize(sum)
 	for round := 0; round < 100; round++ {
 		st.changed = false
 		for _, b := range f.Blocks {
@@ -348,7 +383,19 @@ func (a *Analysis) analyse(f *ssa.Function) bool {
 	for _, e := range sum.Esc {
 		after += len(e)
 	}
+	after += paramCallSize(sum)
 	return after != before
+}
+
+func paramCallSize(sum *Summary) int {
+	n := 0
+	for _, pc := range sum.ParamCalls {
+		n++
+		for _, a := range pc.Args {
+			n += len(a)
+		}
+	}
+	return n
 }
 
 func (st *fstate) wit(in ssa.Instruction, what string) *Witness {
@@ -393,6 +440,15 @@ func (st *fstate) instr(in ssa.Instruction) {
 		st.add(x, st.get(x.X))
 	case *ssa.TypeAssert:
 		st.add(x, st.get(x.X))
+		if x.CommaOk {
+			k := tupleKey{x, 0}
+			if st.tuples[k] == nil {
+				st.tuples[k] = set{}
+			}
+			if st.tuples[k].addAll(st.get(x.X)) {
+				st.changed = true
+			}
+		}
 	case *ssa.Field:
 		st.add(x, st.get(x.X))
 	case *ssa.Index:
@@ -459,6 +515,16 @@ func (st *fstate) instr(in ssa.Instruction) {
 				kk := k
 				if !strings.HasPrefix(k, "P") && !strings.HasPrefix(k, "G:") {
 					kk = "Fresh"
+					// an object allocated here whose address was also stored into package-level state (an object
+					// handed to a pool, a memo): the result shares memory with that state
+					for g := range st.contents {
+						if strings.HasPrefix(g, "G:") && st.region(set{g: true})[k] {
+							if !st.sum.Ret[i][g] {
+								st.sum.Ret[i][g] = true
+								st.changed = true
+							}
+						}
+					}
 				}
 				if !st.sum.Ret[i][kk] {
 					st.sum.Ret[i][kk] = true
